@@ -94,7 +94,10 @@ CLAIMS.update({
         'generated function equal to Pack.nf/nf_pos from any restart index with any stale cache.  Model/PathTable.v (breadth-first directory numbering, '
         'extents and the written path table of _reassign_vd_dirrecord_extents / _write_directory_records): for EVERY tree the numbers are 1..n in BFS order with correct parent '
         'numbers, the table is sorted by (level, parent, identifier), extents are consecutive, and a reader rebuilds every path from the table alone (C03_path_table_*; the '
-        'ECMA padding order is refuted for identifiers with bytes below 0x20).  Tie: ptableleaf.py on the hierarchies of generated images; translator validation run + Pack.v vs the real '
+        'ECMA padding order is refuted for identifiers with bytes below 0x20).  Model/Master.v: the BYTES of every directory extent of a plain ISO9660 image as _write_directory_records emits them, '
+        'and an independent mount-style reader: for EVERY well-formed tree the reader recovers names, kinds, lengths and extents (C03_reader_recovers_the_mastered_tree, also from any larger image), the '
+        'directory extents are pairwise disjoint and exactly the directories, `.` and `..` carry the extent and length of the directory itself and of its parent (masterleaf.py: the model\'s bytes = the '
+        'extents cut out of images written by the library, and the model\'s reader run on the library\'s bytes).  Tie: ptableleaf.py on the hierarchies of generated images; translator validation run + Pack.v vs the real '
         'method on an exhaustive small-block grid + insert/remove edits + positions decoded from real images (judged in Coq).  The property itself: '
         'every generated image (random histories + boundary recipes: block filled exactly, path table crossing 4 KiB with duplicate PVDs, ...) is '
         'decoded by an independent reader checking every listed ECMA-119 rule and compared with the API tree and contents of both the writing and a reopened object.'),
@@ -111,12 +114,15 @@ CLAIMS.update({
         'disjoint and inside the block for EVERY add/remove history (C04_ce_blocks_inv) and the off-by-one gap variant is refuted.  The two ways of '
         'computing the allocation agree: Model/Account.v is a state machine of the plain ISO9660 core (directory tree, file lengths, path table, '
         'space_size; add_fp/add_directory/rm_file/rm_directory with exactly the per-edit byte deltas of the source) and C04_declared_size_is_exact proves '
-        'space = end of the from-scratch layout for EVERY history, objects disjoint and inside, refused edits change nothing.  Tie: allocator and '
-        'packing models vs the real objects on exhaustive small-block sequences; Account.run_probe/flags/ends vs the library after EVERY operation of random histories.  The property itself on every generated image: objects decoded by '
+        'space = end of the from-scratch layout for EVERY history, objects disjoint and inside, refused edits change nothing.  Model/AccountRR.v does the same WITH Rock Ridge '
+        '(record lengths and continuation needs from RRPlace.place, continuation blocks from CeAlloc, add_symlink, versions 1.09/1.10/1.12): C04_rr_declared_size_is_exact, '
+        'C04_rr_continuation_entries_sound (every entry of every tracked block is owned by exactly one live record, areas inside 2048 bytes and disjoint, no empty block tracked), '
+        'C04_rr_refused_edit_changes_nothing; the code before fix 958cd03 is refuted (rm_file of a symlink kept its continuation entry; reproduced, repaired).  Tie: allocator and '
+        'packing models vs the real objects on exhaustive small-block sequences; Account.run_probe/flags/ends and AccountRR.run_obs (counters, every continuation block\'s entries and extent, end of layout) vs the library after EVERY operation of random histories.  The property itself on every generated image: objects decoded by '
         'the independent reader pairwise disjoint and inside the declared size, image length exact, write log of the mastering run free of double '
         'writes (except the boot-info patch), data extents shared iff linked.'),
-  note=('The accounting of Joliet / Rock Ridge / UDF / hard-link / El Torito edits is NOT modelled in Coq (Account.v: one name per content, files of one '
-        'extent, no Rock Ridge); for them under-/over-declaration is decided on the sampled images (length, bounds, overlaps, failed writes, and the '
+  note=('The accounting of UDF / El Torito / relocation edits is NOT modelled in C04 (Account.v / AccountRR.v: one name per content, files of one '
+        'extent, depth <= 7; hard links and Joliet are in C07 AccountLinks.v / C01 AccountNs.v, the UDF partition in C10 UdfLayout.v); for them under-/over-declaration is decided on the sampled images (length, bounds, overlaps, failed writes, and the '
         'trailing-slack rule: the declared size ends where the last object ends). '
         'Trusted: Coq kernel, translator, hand models tied by leaf runs, reader segment map, recording sink.'),
   technique='Coq proofs (bump allocation, CE allocator invariant, translated size functions) + reader/write-log oracle on generated images',
@@ -168,7 +174,7 @@ CLAIMS.update({
         'models vs the real methods on every run (targets around every record/component boundary).  The property itself on generated Rock Ridge images (1.09/1.10/1.12 x XA, long '
         'names, CE gaps of exactly the needed size +-1, trees deeper than 8): an independent SUSP/RRIP reader recovers names, types, PX mode types, link counts, targets, the logical '
         'tree; entry lengths, CE/CL/PL pointers.'),
-  note=('Added model RRPlace.v (which System Use entries RockRidge.new creates and where: record vs continuation area; C08_placement_fits_the_record, C08_ce_entry_length_is_the_area, C08_placed_name_reads_back, C08_no_continuation_iff_first_fit, C08_placement_total for ALL inputs; tied by rrplaceleaf.py on a boundary grid).  Added models: Nlink.v (directory link counts: 2 + #subdirs on the record, its dot and the children\'s dotdot after EVERY add/rm_directory history incl. refused edits, C08_nlink; depth <= 7, no relocation) and RREntries.v/RRWalk.v (every System Use entry codec, the walker and the recorder: entry round trips, self-describing lengths, C08_area_walk for any entry list; the two known symlink findings as _refuted theorems); tied by nlinkleaf.py (PX counts of the record objects) and rrleaf.py (System Use areas of generated images).  Relocation (CL/PL/RE), link counts under relocation and _assign_entries placement are decided on sampled images by the reader, not by theorems. Link counts are not compared on images with a relocated directory.'),
+  note=('Added model RRPlace.v (which System Use entries RockRidge.new creates and where: record vs continuation area; C08_placement_fits_the_record, C08_ce_entry_length_is_the_area, C08_placed_name_reads_back, C08_no_continuation_iff_first_fit, C08_placement_total for ALL inputs; tied by rrplaceleaf.py on a boundary grid incl. every record length 120..257 with every relocation flag).  The entry lengths all these models use are the length() static methods of rockridge.py TRANSLATED on every run (Gen/GenRR.v): C08_entry_lengths_are_the_source.  Continuation entries over whole edit histories (allocation, sharing, release with the last owner): Model/AccountRR.v, theorems in C04.  Added models: Nlink.v (directory link counts: 2 + #subdirs on the record, its dot and the children\'s dotdot after EVERY add/rm_directory history incl. refused edits, C08_nlink; depth <= 7, no relocation) and RREntries.v/RRWalk.v (every System Use entry codec, the walker and the recorder: entry round trips, self-describing lengths, C08_area_walk for any entry list; the two known symlink findings as _refuted theorems); tied by nlinkleaf.py (PX counts of the record objects) and rrleaf.py (System Use areas of generated images).  Relocation (CL/PL/RE), link counts under relocation and _assign_entries placement are decided on sampled images by the reader, not by theorems. Link counts are not compared on images with a relocated directory.'),
   technique='Coq round-trip proofs for NM/SL splitting and CE allocator invariant + leaf runs + independent SUSP/RRIP reader on generated images',
   design='§8.8'),
  'C09': dict(category='proof',
@@ -185,7 +191,7 @@ CLAIMS.update({
         'Everything else is decided on generated UDF images (fresh and reopened-then-edited; identifier areas ending exactly on a sector boundary; Latin-1/UCS-2 names; non-Latin-1 symlink components; '
         'cross-namespace links; empty files) by an independent ECMA-167 reader that starts from the recognition sequence and the anchors, verifies every tag it passes, partition bounds and information '
         'lengths, and must recover exactly the tree, names, targets and bytes.'),
-  note='partial: Model/UdfVds.v (recognition sequence, anchors, volume descriptor sequence, integrity, file set: every descriptor verifies and round-trips, sizes and counters stay in step) and Model/UdfDir.v (one directory under adds/removals: information length, blocks granted, Logical Blocks Recorded, placement) were added, tied by vdleaf.py / udfdirleaf.py; Model/Udf.v covers tag, short/long AD, ICB tag, FID and File Entry (+ splitting into allocation descriptors): recorded descriptors verify for an independent checker, parse.record = id, extents sum to the length and chain; tied by udfleaf.py incl. descriptors cut out of written images.  Partition/anchor/integrity accounting and the volume descriptor sequence classes are NOT modelled in Coq; they are checked by the reader on sampled images only.',
+  note='partial: Model/UdfVds.v (recognition sequence, anchors, volume descriptor sequence, integrity, file set: every descriptor verifies and round-trips, sizes and counters stay in step) and Model/UdfDir.v (one directory under adds/removals: information length, blocks granted, Logical Blocks Recorded, placement) were added, tied by vdleaf.py / udfdirleaf.py; Model/Udf.v covers tag, short/long AD, ICB tag, FID and File Entry (+ splitting into allocation descriptors): recorded descriptors verify for an independent checker, parse.record = id, extents sum to the length and chain; tied by udfleaf.py incl. descriptors cut out of written images.  Model/UdfLayout.v: where _reshuffle_extents puts every File Entry, identifier area and file content of a WHOLE UDF tree and what every pointer says -- for every well-formed tree a reader that follows recorded pointers only recovers the namespace (C10_udf_reader_recovers_the_namespace), the regions tile the partition exactly and shared inodes are stored once (C10_udf_layout_disjoint), every directory starts with a parent FID pointing at its parent\'s File Entry, the integrity descriptor counts file NAMES and directories incl. the root after EVERY history (C10_udf_counts_after_every_history); for files over 0xfffff800 bytes disjointness is REFUTED (C10_udf_layout_disjoint_refuted: the File Entry is linked to the last piece with the full length) -- reproduced on pycdlib, recorded as a known finding; tied by udflayoutleaf.py (per history, every extent/ICB/tag location/descriptor/counter read off the object graph; descriptor-overlap oracle).  UDF beside Joliet/Rock Ridge, reopened UDF images and descriptor BYTES of whole trees are checked by the reader on sampled images only.',
   technique='Coq proofs over translated CRC/checksum/length functions + independent ECMA-167 reader on generated images',
   design='§8.10'),
  'C11': dict(category='proof',
